@@ -43,6 +43,8 @@ type Opts struct {
 	WrapServer func(e *Endpoint)
 	// Server, if set, builds the server side (default tls.Server).
 	MakeClient func(e *Endpoint, cfg *tls.Config, id tls.ClientHelloID) *tls.UConn
+	// OnConns is called with both connection objects before any handshake step (hook registration).
+	OnConns func(u *tls.UConn, s *tls.Conn)
 }
 
 // Run performs one handshake (and optionally an echo round trip).
@@ -72,6 +74,9 @@ func Run(ccfg *tls.Config, id tls.ClientHelloID, scfg *tls.Config, o Opts) (h *H
 		h.U = tls.UClient(ce, ccfg, id)
 	}
 	h.S = tls.Server(se, sc)
+	if o.OnConns != nil {
+		o.OnConns(h.U, h.S)
+	}
 
 	go func() {
 		defer close(h.done)
